@@ -53,6 +53,10 @@ func c17Build(seed int64, ci int, cs c17Case) (atlasfake.Config, [][]byte, [][]b
 			hp = nm + ":27017"
 		case 2: // several members on one machine: the same host name on different ports
 			nm = fmt.Sprintf("c17-multi-%02d.example.net", i/2)
+			if cs.k >= 0 && cs.k/2 == i/2 {
+				// the member hit by the fault keeps a machine of its own (the fake endpoint serves by host name)
+				nm = fmt.Sprintf("c17-multi-%02d-%d.example.net", i/2, i)
+			}
 			hp = fmt.Sprintf("%s:%d", nm, 27017+i)
 		case 3: // IPv6 literals
 			nm = fmt.Sprintf("2001:db8::%x", i+1)
@@ -61,8 +65,13 @@ func c17Build(seed int64, ci int, cs c17Case) (atlasfake.Config, [][]byte, [][]b
 		hosts = append(hosts, hp)
 		names = append(names, nm)
 		raw, z := atlasPayload(gg, i, 9, 1)
-		if prev, dup := payload[nm]; dup && i != cs.k {
-			z = prev
+		if prev, dup := payload[nm]; dup {
+			z = prev // the same host named twice serves the same log twice
+			for pi := range names[:i] {
+				if names[pi] == nm {
+					raw = raws[pi]
+				}
+			}
 		}
 		if i == cs.k {
 			switch cs.fault {
